@@ -453,7 +453,15 @@ class Machine:
                 op["period"] = [rng.choice([8.0, 10.0, 12.5, 20.0]) for _ in range(self.dim)]
             return op
         if f == "rejected_seed":
-            return {"fault": f, "bad": rng.choice([-1, -20170519]),
+            sf = None
+            if rng.random() < 0.5:
+                if self.mdim > 1 and self.flavor == "plain" and rng.random() < 0.6:
+                    sf = {"param": "anis",
+                          "value": [rng.choice(cm.ANIS_GRID) for _ in range(self.mdim - 1)]}
+                else:
+                    sf = {"param": "len_scale", "value": rng.choice(cm.LEN_GRID)}
+            return {"fault": f, "set_first": sf, "restore": rng.random() < 0.6,
+                    "bad": rng.choice([-1, -20170519]),
                     "idx": rng.sample(range(self.npool), min(2, self.npool)),
                     "repair": self.spec["seed"] if rng.random() < 0.7 else rng.choice(SEEDS),
                     "obj": rng.choice(["same", "distinct", "np"])}
@@ -858,6 +866,17 @@ class Machine:
         if not idx:
             raise Inapplicable("no points")
         pts = self.pool[:, idx]
+        undo = None
+        sf = op.get("set_first")
+        if sf:
+            # the refused call finds a changed model: it dies in the middle of the update
+            try:
+                n_undo = len(self.undo)
+                self._apply_set({"op": "set", "param": sf["param"], "value": sf["value"]})
+                if len(self.undo) > n_undo:
+                    undo = self.undo[-1]
+            except Inapplicable:
+                pass
         for s in self.sides():
             try:
                 s.srf(pts.copy(), seed=op["bad"], store=False)
@@ -866,6 +885,14 @@ class Machine:
             else:
                 raise Violation("C11.bad_seed_accepted", seed=op["bad"])
         self.ctx.fired("rejected_seed")
+        if undo is not None and op.get("restore"):
+            # ... and the user takes the change back before trying again
+            try:
+                self._apply_set({"op": "set", "param": undo[0], "value": undo[1],
+                                 "restore": True})
+                self.ctx.probe("restored_after_failed_call")
+            except Inapplicable:
+                pass
         self.last = ("u", idx)
         # the seed is poisoned: the user states a valid seed with the next call
         self._apply_gen({"op": "gen", "layout": "unstructured", "idx": idx, "via": "call",
